@@ -216,13 +216,41 @@ def pool_oracle(t: dict, trace_threads: bool) -> list[str]:
     return msgs
 
 
+def outliving_oracle(t: dict, info: dict) -> list[str]:
+    """C13's statement on a traced run of a `progs.outliving_writers` program (threads that are not joined and write after the script's
+    main code has returned; they are traced, the run lasts until they end).  Ground truth as everywhere: the writes that reached the real
+    stdout, keyed by the writing thread.  The real stdout received every piece each thread wrote, in that thread's order, and every
+    writer's text up to its last newline is what was reported for one trace."""
+    from . import _trace
+    msgs = []
+    per: dict = {}
+    for k, s in t['writes']:
+        per.setdefault(k, []).append(s)
+    flat = [''.join(v) for v in per.values()]
+    for tag, wl in info['writes'].items():
+        w = ''.join(wl)
+        if w not in flat:
+            msgs.append(f'the real stdout did not receive what {"the main thread" if tag == "M" else "the not-joined thread " + tag} wrote, {w!r}; '
+                        f'received per writer: {flat!r}')
+            break
+    for m in _trace.captured_oracle(t):
+        reported = ''.join(e['text'] for e in t['events'] if e['_type'] == 'OnWriteStdout')
+        missing = [p for tag, wl in info['late'].items() for p in ''.join(wl)[:''.join(wl).rfind('\n') + 1].splitlines() if p and p not in reported]
+        if missing:
+            m += f'; lines written by a not-joined thread after the last statement of the script and reported for no trace: {missing!r}'
+        msgs.append(m)
+    return msgs
+
+
 def run(chk: common.Check) -> None:
     chk.cov.rule = ('write sequences (key|None, text): all sequences up to a fixed length over 6 text fragments × 3 keys, then seeded '
                     'random unicode/long ones, executed on the real peek_stdout_by_key and on the Lean model (replies compared '
                     'line by line); plus generated scripts printing from main thread/threads/asyncio tasks through the real child, and 3–6 threads '
                     'writing partial lines at the same time under a 1 µs thread-switch interval through the real trace machinery in-process; and asyncio '
                     'scripts that hand jobs to the default executor one after the other (to_thread, run_in_executor, call_soon, call_soon_threadsafe, '
-                    'copy_context().run; the pooled thread is reused), task, callbacks and worker writing full and partial lines, with and without thread tracing. '
+                    'copy_context().run; the pooled thread is reused), task, callbacks and worker writing full and partial lines, with and without thread tracing; and '
+                    'scripts that start threads and do not join them, every thread inside its traced function before the script ends and writing full and partial '
+                    'lines only after the last statement of the script has run (in-process under continue/next/step, and through the real child). '
                     'Non-trivial: at least one piece was reported; distinct = distinct write sequence.')
     chk.assumptions += ['which trace number is current at a write (the key) is model D1 / property C06',
                         '“writes to standard output” = sys.stdout.write and what is built on it (print, writelines)']
@@ -280,11 +308,23 @@ def run(chk: common.Check) -> None:
                {'kind': 'random', 'seed': i, 'choices': ['next', 'step', 'next', 'return', 'until']}][i % 3]
         specs.append({'statement': src, 'trace_threads': True, 'policy': pol, 'timeout': 60})
         exps.append(exp)
-    real = common.real_runs(specs, jobs=12, hard_timeout=120)
-    for r, exp, spec in zip(real, exps, specs):
+    # not-joined threads writing after the script's last statement (progs.outliving_writers), through the real child: the child's teardown
+    # starts when the main code returns, while these threads are still traced and still writing
+    nlate = 0
+    for i in range(2 if chk.tier == 'quick' else 12):
+        src, info = progs.outliving_writers(random.Random(chk.seed * 1000 + 500 + i), nthreads=1 + i % 2)
+        pol = [{'kind': 'all', 'command': 'next'}, {'kind': 'all', 'command': 'continue'}, {'kind': 'all', 'command': 'step'}][i % 3]
+        specs.append({'statement': src, 'trace_threads': True, 'policy': pol, 'timeout': 60})
+        exps.append(info['writes'])
+        nlate += 1
+    real = common.real_runs(specs, jobs=12 + nlate if chk.tier == 'quick' else 12, hard_timeout=120)
+    for j, (r, exp, spec) in enumerate(zip(real, exps, specs)):
+        late = j >= nreal
         chk.cov.case(('real', spec['statement']))
-        chk.cov.count('kinds', 'real-child')
+        chk.cov.count('kinds', 'real-child-outliving-writers' if late else 'real-child')
         msgs = check_real(r, exp)
+        if msgs and late:
+            msgs[0] = f'threads that outlive the script (not joined, real child, policy {spec["policy"]["command"]}): ' + msgs[0]
         if msgs:
             oracle_fail.append(({'script': spec['statement'], 'policy': spec['policy']}, msgs,
                                 {'stdout': (r['rec'] or {}).get('stdout'), 'real_stdout': r['real_stdout']}))
@@ -328,6 +368,13 @@ def run(chk: common.Check) -> None:
         for tt in ((True, False) if i % 2 == 0 else (True,)):
             sspecs.append({'source': src, 'policy': pol, 'trace_threads': tt, 'trace_modules': False, 'kind': 'pool-reuse', 'forms': info['forms'],
                            'timeout': 90, 'want_reference': False, 'want_recorder': False, 'switchinterval': None})
+    # threads that are not joined: each one is inside its traced function when the script ends (handshake) and writes full and partial lines only
+    # after the script's last statement has run (which sets the event they wait for); the run lasts until they have ended, they are traced all the time
+    for i in range(6 if chk.tier == 'quick' else 36):
+        src, info = progs.outliving_writers(random.Random(chk.rng.randrange(1 << 30)), nthreads=chk.rng.choice([1, 2, 3]))
+        pol = [{'kind': 'all', 'command': 'continue'}, {'kind': 'all', 'command': 'next'}, {'kind': 'all', 'command': 'step'}][i % 3]
+        sspecs.append({'source': src, 'policy': pol, 'trace_threads': True, 'trace_modules': False, 'kind': 'outliving-writers', 'info': info,
+                       'timeout': 90, 'want_reference': False, 'want_recorder': False, 'switchinterval': None})
     for r in _trace.run_specs(sspecs, chunk=4):
         sp = r['spec']
         if 'harness_error' in r:
@@ -347,6 +394,13 @@ def run(chk: common.Check) -> None:
                 msgs.append(f'the script raised: {r["traced"]["fmt_exc"][-300:]}')
             if msgs:
                 msgs[0] = f'executor jobs run one after the other (trace_threads={sp["trace_threads"]}): ' + msgs[0]
+        elif sp['kind'] == 'outliving-writers':
+            chk.cov.count('outliving_threads', len(sp['info']['late']))
+            msgs = outliving_oracle(r['traced'], sp['info'])
+            if r['traced'].get('fmt_exc'):
+                msgs.append(f'the script raised: {r["traced"]["fmt_exc"][-300:]}')
+            if msgs:
+                msgs[0] = f'threads that outlive the script (not joined, policy {sp["policy"]["command"]}): ' + msgs[0]
         else:
             msgs = _trace.captured_oracle(r['traced'])
         if r['traced'].get('error'):
